@@ -364,12 +364,13 @@ func SameTargetModels() []Tagged {
 }
 
 // TuplesetListModels: the tupleset's restriction list ranges over every list of one to three entries drawn (with repetition)
-// from {doc, doc with k, folder, folder with k}, so that a parent type is named twice (plain and conditioned, in either order,
+// from {doc, doc with k, folder, folder with k, bare - a type without the relation}, so that a parent type is named twice (plain and conditioned, in either order,
 // or literally twice) before, between and after other parent types; the TTU sits alone, under each operator and on a cycle.
 // folder#b reaches group and user:*, doc#b reaches user only, so a lost or doubled TTU edge shows in types and weights.
 func TuplesetListModels() []Tagged {
 	var out []Tagged
-	entries := []ref.Restriction{{Type: "doc"}, {Type: "doc", Condition: "k"}, {Type: "folder"}, {Type: "folder", Condition: "k"}}
+	// "bare" is a parent type WITHOUT the computed relation: a tupleset that names it anywhere makes the model invalid
+	entries := []ref.Restriction{{Type: "doc"}, {Type: "doc", Condition: "k"}, {Type: "folder"}, {Type: "folder", Condition: "k"}, {Type: "bare"}}
 	var lists [][]ref.Restriction
 	var rec func(cur []ref.Restriction)
 	rec = func(cur []ref.Restriction) {
@@ -403,9 +404,48 @@ func TuplesetListModels() []Tagged {
 				{Name: "a", Rw: ref.T(), Restr: g},
 				{Name: "b", Rw: ref.T(), Restr: []ref.Restriction{{Type: "group"}, {Type: "user", Wildcard: true}}},
 			}}
-			m := &ref.Model{Schema: "1.1", Types: []ref.TypeDef{{Name: "user"}, {Name: "group"}, doc, folder},
+			bare := ref.TypeDef{Name: "bare", Rels: []ref.Relation{{Name: "other", Rw: ref.T(), Restr: u}}}
+			m := &ref.Model{Schema: "1.1", Types: []ref.TypeDef{{Name: "user"}, {Name: "group"}, doc, folder, bare},
 				Conds: []ref.Condition{{Name: "k", Params: []ref.Param{{Name: "x", Type: "int"}}, Expr: "x < 1"}}}
 			out = append(out, Tagged{Tag: fmt.Sprintf("tupleset-list: a: %s | b: [user] | p: %v", a.Tag, l), M: m})
+		}
+	}
+	return out
+}
+
+// SecondRouteModels: three relations on nested tuple cycles with a second route into the inner ones - every relation is a union
+// of a direct assignment (to user and/or the usersets of the other two) with computed and tuple-to-userset references to the
+// others, so that a relation is reached again, already weighted, while two cycles through it are still open.
+func SecondRouteModels() []Tagged {
+	var out []Tagged
+	names := []string{"a", "b", "c"}
+	type spec struct {
+		tag string
+		rw  *ref.Rewrite
+		l   []ref.Restriction
+	}
+	mk := func(self int) []spec {
+		o1, o2 := names[(self+1)%3], names[(self+2)%3]
+		us := func(r string) ref.Restriction { return ref.Restriction{Type: "doc", Relation: r} }
+		u := ref.Restriction{Type: "user"}
+		return []spec{
+			{o1 + " from p", ref.TT(o1, "p"), nil},
+			{"[doc#" + o2 + "] or " + o1 + " or " + o2, ref.U(ref.T(), ref.C(o1), ref.C(o2)), []ref.Restriction{us(o2)}},
+			{"[user, doc#" + o1 + "] or " + o1 + " or " + o2 + " from p", ref.U(ref.T(), ref.C(o1), ref.TT(o2, "p")), []ref.Restriction{u, us(o1)}},
+			{"[user, doc#" + o2 + "] or " + o2 + " or " + o1 + " from p", ref.U(ref.T(), ref.C(o2), ref.TT(o1, "p")), []ref.Restriction{u, us(o2)}},
+			{"[user] or " + o1 + " from p or " + o2 + " from p", ref.U(ref.T(), ref.TT(o1, "p"), ref.TT(o2, "p")), []ref.Restriction{u}},
+			{"[doc#" + o1 + ", doc#" + o2 + "] or " + o2, ref.U(ref.T(), ref.C(o2)), []ref.Restriction{us(o1), us(o2)}},
+			{"[user, doc#" + o1 + ", doc#" + o2 + "]", ref.T(), []ref.Restriction{u, us(o1), us(o2)}},
+			{o1 + " or " + o2 + " from p", ref.U(ref.C(o1), ref.TT(o2, "p")), nil},
+		}
+	}
+	as, bs, cs := mk(0), mk(1), mk(2)
+	for _, a := range as {
+		for _, b := range bs {
+			for _, c := range cs {
+				m := GraphModel(map[string]RelSpec{"a": {a.rw, a.l, ""}, "b": {b.rw, b.l, ""}, "c": {c.rw, c.l, ""}}, "p:[doc]")
+				out = append(out, Tagged{Tag: fmt.Sprintf("second-route: a: %s | b: %s | c: %s", a.tag, b.tag, c.tag), M: m})
+			}
 		}
 	}
 	return out
